@@ -201,7 +201,21 @@ func (ex *Exec) resolveTargets(tc *TrCtx, mods []ModTarget) ([]modTarget, map[st
 	S := ex.eng.S
 	var out []modTarget
 	whole := map[string]bool{}
+	var expanded []ModTarget
 	for _, m := range mods {
+		if m.Group != "" {
+			g, ok := ex.eng.cs.Groups[m.Group]
+			if !ok {
+				trFail("unknown heap group %s", m.Group)
+			}
+			for _, te := range g {
+				expanded = append(expanded, ModTarget{Heap: te, Src: m.Src})
+			}
+			continue
+		}
+		expanded = append(expanded, m)
+	}
+	for _, m := range expanded {
 		if m.Heap != nil {
 			t := tc.resolveType(m.Heap)
 			if p, ok := t.Underlying().(*types.Pointer); ok {
@@ -211,6 +225,13 @@ func (ex *Exec) resolveTargets(tc *TrCtx, mods []ModTarget) ([]modTarget, map[st
 				dk, ds, vk, vs := S.heapKeyMap(mt)
 				whole[dk], whole[vk] = true, true
 				ex.vc.heapSorts[dk], ex.vc.heapSorts[vk] = ds, vs
+			} else if _, ok := t.Underlying().(*types.Slice); ok {
+				sn := S.sortOf(t)
+				if S.handle[sn] {
+					k, srt := S.sliceHeap(sn)
+					whole[k] = true
+					ex.vc.heapSorts[k] = srt
+				}
 			} else {
 				k, s := S.heapKeyPtr(t)
 				whole[k] = true
